@@ -23,8 +23,8 @@ def main(ctx):
     ev = ctx.ev
     wd = core.workdir()
     rng = random.Random(ctx.seed)
-    ev.rule = ("cases: (scenario, schedule): every 1- and 2-frame stream over the pipeline frame set (26 frames) and sampled "
-               "3- and 4-frame streams; schedules: whole stream in one chunk, one chunk per frame, 2 random chunkings.  "
+    ev.rule = ("cases: (scenario, schedule): every 1- and 2-frame stream over the pipeline frame set (26 frames), sampled "
+               "3- and 4-frame streams, and connected sessions (Forward Open, SendUnitData, Forward Close, session-ending frames); schedules: whole stream in one chunk, one chunk per frame, 2 random chunkings.  "
                "Non-trivial: >= 2 frames, or a failing / unroutable / silent request.")
     ev.assumptions = ["Register's random session handle only required to be non-zero",
                       "List Identity / Services / Interfaces replies: header (command, context, status 0, length) checked; payload not modelled yet"]
@@ -47,8 +47,38 @@ def main(ctx):
                 ends.append(at)
             sc = dict(fs[0]["sc"], frames=[f["sc"]["frames"][0] for f in fs])
             longer.append({"sc": sc, "fb": [f["fb"][0] for f in fs], "ends": ends})
+    # connected messaging: Forward Open (small / large, target- or originator-chosen id), SendUnitData with sequence counts, Forward
+    # Close, mixed with frames that make the server end the session (the connection table is observed after every reply and
+    # after the session)
+    serverlib.run_model(ctx, wd, 1 if ctx.quick else 2, "any", "connected", "conn")
+    csingles = serverlib.emit_scenarios(ctx, wd, 1, "any", "connected", "conn1")
+    if ctx.machinery:
+        return
+    byk = {}
+    for c in csingles:
+        byk.setdefault(c["sc"]["frames"][0]["kind"], []).append(c)
+    enders = [x for x in singles if x["sc"]["frames"][0]["kind"] in ("unregister", "badcmd") or
+              (x["sc"]["frames"][0]["kind"] == "rr" and x["sc"]["frames"][0]["req"]["tag"] == 0)]
+    conn = []
+    for _ in range(150 if ctx.quick else 2000):
+        fs = [rng.choice(byk["fwdopen"])]
+        for _ in range(rng.randint(1, 4)):
+            fs.append(rng.choice(byk["unit"] * 3 + byk["fwdopen"] + byk["fwdclose"]))
+        tail = rng.random()
+        if tail < 0.4:
+            fs.append(rng.choice(byk["fwdclose"]))
+        elif tail < 0.6:
+            fs.append(rng.choice(enders))
+        ends, at = [], 0
+        for f in fs:
+            at += len(f["fb"][0])
+            ends.append(at)
+        conn.append({"sc": dict(fs[0]["sc"], frames=[f["sc"]["frames"][0] for f in fs]), "fb": [f["fb"][0] for f in fs], "ends": ends})
     jobs = []
-    for s in singles + pairs + longer:
+    for s in conn[::5]:                 # the session ends inside a frame: truncated schedules
+        L = s["ends"][-1]
+        jobs.append((s, [L - rng.randint(1, 20)]))
+    for s in singles + pairs + longer + conn:
         L = s["ends"][-1]
         per = [s["ends"][0]] + [s["ends"][i] - s["ends"][i - 1] for i in range(1, len(s["ends"]))]
         scheds = [[L], per]
@@ -64,7 +94,7 @@ def main(ctx):
     lines = core.pmap(serverlib.exec_session, jobs, chunksize=8)
     for (s, sz), ln in zip(jobs, lines):
         fr = s["sc"]["frames"]
-        nt = len(fr) >= 2 or fr[0]["kind"] in ("unregister", "badcmd") or (fr[0]["kind"] == "rr" and fr[0]["req"]["svc"] != "read")
+        nt = len(fr) >= 2 or fr[0]["kind"] in ("unregister", "badcmd", "fwdopen", "unit") or (fr[0]["kind"] == "rr" and fr[0]["req"]["svc"] != "read")
         ev.case(key=(json.dumps(s["fb"]), json.dumps(sz)), nontrivial=nt)
     mid = lines[-1]
     ev.sample({"frames": [f["kind"] + ":" + (f["req"]["svc"] if f["kind"] == "rr" else "") for f in mid["sc"]["frames"]],
